@@ -150,7 +150,7 @@ func checkC13(c *core.Ctx) {
 				c.Nontrivial("describe:" + ks)
 			}
 		}
-		if i%9 == 0 {
+		if c.WantSample() {
 			c.Sample(map[string]any{"cmd": "info key describe --key " + ks, "notes": notes, "flat": flat, "sharp": sharp})
 		}
 	})
